@@ -36,8 +36,8 @@ OPEXPR = {
     'TC_TYPE_RF': 'try_catch_type_return_false< int, {a} >', 'TC_RN': 'try_catch_raise_nested< {a} >', 'TC_ANY_RN': 'try_catch_any_raise_nested< {a} >',
     'TC_STD_RN': 'try_catch_std_raise_nested< {a} >', 'TC_TYPE_RN': 'try_catch_type_raise_nested< int, {a} >', 'TC_RF2': 'try_catch_return_false< {a}, {b} >',
     'ENABLE': 'enable< {a} >', 'DISABLE': 'disable< {a} >', 'STATE': 'state< verif_state, {a} >',
-    'ACTION_ALT': 'action< nothing, {a} >', 'CONTROL_ALT': 'control< normal, {a} >', 'RAW1': "raw_string< '[', '=', ']', {a} >",
-    'SEPARATED_SEQ': 'separated_seq< {a}, {b}, {c} >', 'IF_THEN_ELSE_THEN': 'if_then< {a}, {b} >::else_then< {c} >', 'IF_THEN': 'if_then< {a}, {b} >',
+    'ACTION_ALT': 'action< nothing, {a} >', 'CUSTOM_ANY': '::custom_any< {a} >', 'CONTROL_ALT': 'control< normal, {a} >', 'RAW1': "raw_string< '[', '=', ']', {a} >",
+    'SEPARATED_SEQ': 'separated_seq< {a}, {b}, {c} >', 'IF_THEN_ELSE_THEN': 'if_then< {a}, {b} >::else_then< {c} >', 'IF_THEN': 'if_then< {a}, {b} >', 'IF_THEN_CHAIN': 'if_then< {a}, {b} >::else_if_then< {b}, {c} >::else_if_then< {c}, {a} >',
 }
 for n in range(5):
     OPEXPR['REP%d' % n] = 'rep< %d, {a} >' % n
@@ -58,6 +58,10 @@ HEADER = '''#include <tao/pegtl.hpp>
 #include <tao/pegtl/contrib/rep_one_min_max.hpp>
 #include <tao/pegtl/contrib/separated_seq.hpp>
 #include <cstdio>
+template< typename R > struct custom_any { using rule_t = custom_any; using subs_t = tao::pegtl::type_list< R >;
+   template< tao::pegtl::apply_mode A, tao::pegtl::rewind_mode M, template< typename... > class Action, template< typename... > class Control, typename In, typename... St >
+   [[nodiscard]] static bool match( In& in, St&&... st ) { return tao::pegtl::seq< R, tao::pegtl::one< ';' > >::template match< A, M, Action, Control >( in, st... ); } };
+namespace tao::pegtl { template< typename Name, typename R > struct analyze_traits< Name, ::custom_any< R > > : analyze_any_traits< R > {}; }
 struct verif_state { template< typename In, typename... S > explicit verif_state( const In&, S&&... ) {} template< typename In, typename... S > void success( const In&, S&&... ) {} };
 '''
 
